@@ -48,7 +48,11 @@ func (r *RuleEntity) Execute(dc *context.DataContext) (res interface{}, err erro
 				rs = size
 			}
 			buf = buf[:rs]
-			eMsg := fmt.Sprintf("rule \"%s\" executed, %+v \n%s", r.RuleName, e, string(buf))
+			name := ""
+			if r != nil {
+				name = r.RuleName
+			}
+			eMsg := fmt.Sprintf("rule \"%s\" executed, %+v \n%s", name, e, string(buf))
 			eMsg = strings.ReplaceAll(eMsg, "panic", "error")
 			res, err, returned = nil, errors.New(eMsg), false
 		}
